@@ -142,7 +142,7 @@ func GenLayout(r *rand.Rand, cfg LayoutCfg, id, pkgRel string) *Scenario {
 	// header
 	bv := 0
 	if cfg.BuildVariants {
-		bv = r.Intn(4)
+		bv = r.Intn(6)
 	}
 	switch bv {
 	case 0:
@@ -153,6 +153,10 @@ func GenLayout(r *rand.Rand, cfg LayoutCfg, id, pkgRel string) *Scenario {
 		g.sb.WriteString("//go:build convergen && !never\n\n")
 	case 3:
 		g.sb.WriteString("// +build convergen\n\n")
+	case 4:
+		g.sb.WriteString("//+build convergen\n\n") // legal: the space after the slashes is optional
+	case 5:
+		g.sb.WriteString("//go:build convergen\n//+build convergen\n\n")
 	}
 	g.vec = append(g.vec, fmt.Sprintf("bv%d", bv))
 	if cfg.Comments && g.chance(0.3) {
@@ -322,6 +326,10 @@ func GenLayout(r *rand.Rand, cfg LayoutCfg, id, pkgRel string) *Scenario {
 				}
 				if cfg.Comments && g.chance(0.2) {
 					m.DocLines = append(m.DocLines, "// "+g.c("method doc2 "+m.Name))
+				}
+				if cfg.Comments && g.chance(0.08) {
+					// a compiler directive in the method comment is a non-notation line like any other
+					m.DocLines = append(m.DocLines, []string{"//go:noinline", "//go:nosplit", "//nolint:all"}[r.Intn(3)])
 				}
 				if len(m.DocLines) > 0 && len(m.Notations) > 0 {
 					// interleave
